@@ -195,6 +195,18 @@ func destPathsFor(src treeSpec, args []string) map[string]nodeSpec {
 	return out
 }
 
+// readRegular reads a file only if it is a regular file (a fifo left in the way would block the open).
+func readRegular(p string) ([]byte, error) {
+	st, err := os.Lstat(p)
+	if err != nil {
+		return nil, err
+	}
+	if !st.Mode().IsRegular() {
+		return nil, fmt.Errorf("%s is not a regular file (%v)", p, st.Mode())
+	}
+	return os.ReadFile(p)
+}
+
 // ---- C01: sync ----
 
 func runSync(r *run) error {
@@ -266,6 +278,10 @@ func runSync(r *run) error {
 			shapes = append(shapes, []string{dirs[0], dirs[1] + "/"})
 		}
 		shapes = append(shapes, []string{nestedDir + "/"}, []string{nestedDir})
+		if len(dirs) > 0 {
+			// several sources without trailing slash whose parent directories differ
+			shapes = append(shapes, []string{dirs[0], nestedDir}, []string{nestedDir + "/more", dirs[0]})
+		}
 		nJobs := 6
 		// the first tree also runs the nested directory through every puller, with and without
 		// trailing slash, in every run (the latter is the listed known finding)
@@ -378,7 +394,7 @@ func runSync(r *run) error {
 			}
 			bad := 0
 			for rel, n := range want {
-				got, err := os.ReadFile(filepath.Join(j.sp.Dest, rel))
+				got, err := readRegular(filepath.Join(j.sp.Dest, rel))
 				if err == nil && bytes.Equal(got, n.Data) {
 					continue
 				}
@@ -398,7 +414,7 @@ func runSync(r *run) error {
 					all := true
 					for _, n := range j.src {
 						if n.Type == "f" && strings.HasPrefix(n.Path, nestedNoSlash+"/") {
-							got, err := os.ReadFile(filepath.Join(j.sp.Dest, n.Path))
+							got, err := readRegular(filepath.Join(j.sp.Dest, n.Path))
 							if err != nil || !bytes.Equal(got, n.Data) {
 								all = false
 							}
